@@ -509,6 +509,10 @@ func (e *Env) applyPublish(op Op) {
 			e.failf("pub", "Publish changed a non-zero message time")
 		}
 		e.M.Append(x)
+		if e.Cfg.TimeIndex && x.TS < 0 {
+			e.M.Mono = false // F1: time lookups are not judged once a time-indexed log holds a message from before 1970
+			e.St.Inc("pre_epoch_message_in_time_indexed_log_time_view_not_judged")
+		}
 	}
 	if len(msgs) == 0 {
 		e.flag("emptybatch")
